@@ -149,6 +149,7 @@ def rows_round3(case, V):
     class StubCFM(ap.CalculateFeedAndMeat):
         def __init__(self, country_code, available_feed, available_grass, scenario, kcals_per_head_meat_dict, constants_inputs=None):
             recorded["available_feed"] = available_feed
+            recorded["wiring"] = (country_code, scenario, constants_inputs)
             avail = available_feed.kcals
             used = []
             for m in range(N):
@@ -173,6 +174,10 @@ def rows_round3(case, V):
     out = []
     for m in range(N):
         feed3, bio3 = tc3["feed"].kcals[m], tc3["biofuel"].kcals[m]
+        if not skipped and m == 0:
+            w = recorded["wiring"]
+            out.append(("the herd simulation of every round is built for the run's country, breeding strategy and inputs (head-count and yield overrides travel in the inputs)", "true",
+                        w[0] == ci["COUNTRY_CODE"] and w[1] == ci["BREEDING_STRATEGY"] and w[2] is ci, True))
         if not skipped:
             out.append(("the herd of the final round is offered exactly the feed round 2 found (x 0.999999999)", "eq", recorded["avail"][m], to_bk(r2_feed[m]) * 0.999999999))
             out.append(("feed charged in the final round >= feed the simulated herd ate", "ge", feed3, recorded["used"][m]))
@@ -185,6 +190,39 @@ def rows_round3(case, V):
             out.append(("round 2 skipped: herds of the final round are the no-feed herds", "true", "available_feed" not in recorded, True))
         out.append(("non-human consumption = feed + biofuel charged", "eq", tc3["nonhuman_consumption"].kcals[m], feed3 + bio3))
     return out, recorded
+
+
+class _Stop(Exception):
+    pass
+
+
+def rows_round2(case, V):
+    """the feed round's herd: built for the run's country / strategy / inputs and offered the demand schedule (cut after the herd simulation is constructed)"""
+    pm, md, fd, uc, ap, fb = _mods()
+    ci = real_inputs(case["country"])
+    N = case["N"]
+    ci["NMONTHS"] = N
+    recorded = {}
+
+    class StubCFM(ap.CalculateFeedAndMeat):
+        def __init__(self, country_code, available_feed, available_grass, scenario, kcals_per_head_meat_dict, constants_inputs=None):
+            recorded["available_feed"] = available_feed
+            recorded["wiring"] = (country_code, scenario, constants_inputs)
+            raise _Stop()
+    fab = fb.FeedAndBiofuels(ci)
+    bio_demand, feed_demand = fab.get_biofuels_and_feed_from_delayed_shutoff(ci)
+    with patched(pm, extra={(pm, "CalculateFeedAndMeat"): StubCFM}, np=False), contextlib.redirect_stdout(io.StringIO()):
+        try:
+            pm.Parameters().compute_parameters_second_round(ci, {}, {}, None)
+        except _Stop:
+            pass
+    out = []
+    for m in range(N):
+        out.append(("the feed round offers its herds the feed demand schedule", "eq", recorded["available_feed"].kcals[m], feed_demand.kcals[m]))
+    w = recorded["wiring"]
+    out.append(("the herd simulation of every round is built for the run's country, breeding strategy and inputs (head-count and yield overrides travel in the inputs)", "true",
+                w[0] == ci["COUNTRY_CODE"] and w[1] == ci["BREEDING_STRATEGY"] and w[2] is ci, True))
+    return out
 
 
 def rows_round1(case, V):
@@ -200,6 +238,7 @@ def rows_round1(case, V):
         def __init__(self, country_code, available_feed, available_grass, scenario, kcals_per_head_meat_dict, constants_inputs=None):
             recorded["available_feed"] = available_feed
             recorded["available_grass"] = available_grass
+            recorded["wiring"] = (country_code, scenario, constants_inputs)
             # C07: the herd never uses more feed than it is offered
             s = stub_herd(ap, fd, V, N, herd, feed_used=[0.0 * float(x) for x in available_feed.kcals])
             self.all_animals, self.feed_used, self.grass_used = s.all_animals, s.feed_used, s.grass_used
@@ -212,6 +251,9 @@ def rows_round1(case, V):
         out.append(("round 1 charges no feed", "eq", tc["feed"].kcals[m], 0))
         out.append(("round 1 charges no biofuel", "eq", tc["biofuel"].kcals[m], 0))
     out.append(("herds are offered the grass series of MeatAndDairy", "true", recorded["available_grass"] is not None, True))
+    w = recorded["wiring"]
+    out.append(("the herd simulation of every round is built for the run's country, breeding strategy and inputs (head-count and yield overrides travel in the inputs)", "true",
+                w[0] == ci["COUNTRY_CODE"] and w[1] == ci["BREEDING_STRATEGY"] and w[2] is ci, True))
     return out
 
 
@@ -245,6 +287,8 @@ def worker(case, seed):
                 rows = rows_supply(case, V)
             elif case["kind"] == "round1":
                 rows = rows_round1(case, V)
+            elif case["kind"] == "round2":
+                rows = rows_round2(case, V)
             else:
                 rows, rec = rows_round3(case, V)
                 if not case.get("round2_skipped"):
@@ -327,6 +371,8 @@ def replay(case, cx):
                 rows = rows_supply(case, V)
             elif case["kind"] == "round1":
                 rows = rows_round1(case, V)
+            elif case["kind"] == "round2":
+                rows = rows_round2(case, V)
             else:
                 rows, rec = rows_round3(case, V)
     except AssertionError as e:
@@ -357,6 +403,7 @@ def main(tier, seed, only=None):
         r3.append(dict(kind="round3", country=c, N=2, herd=["meat_cattle", "milk_cattle"]))
         r3.append(dict(kind="round3", country=c, N=12, herd=["pig", "meat_cattle"], round2_skipped=True))
         r3.append(dict(kind="round1", country=c, N=12, herd=["chicken", "meat_cattle", "milk_cattle"]))
+        r3.append(dict(kind="round2", country=c, N=12, herd=[]))
     if thorough:
         r3.append(dict(kind="round3", country="ARG", N=3, herd=["chicken", "pig", "meat_cattle", "milk_cattle"]))
     stubs = STUBS + ["CalculateFeedAndMeat (the herd simulation) replaced by a stub with symbolic monthly slaughter, herd size and feed use; its real get_meat_produced / get_total_milk_bearing_animals run",
